@@ -122,6 +122,9 @@ pub enum Mode {
     YieldGate,
     /// like Gate, but at every poll also invokes the stored waker of child `relay_target`
     Relay,
+    /// never ready by itself: every poll wakes the *next* ring member (cyclically among the live
+    /// `Ring` children that have been polled) and answers Pending — no member ever wakes itself
+    Ring,
     /// panics (unwinds through the crate) at its first poll, afterwards behaves like a released Gate
     PanicOnce,
     /// completes at its first poll; its destructor panics (once, and never while already unwinding)
@@ -215,6 +218,8 @@ pub enum UpAns {
     ItemReady,
     ItemGateFail,
     ItemReadyFail,
+    /// an item whose future has the third configured mode (e.g. one that panics in `poll`)
+    ItemAlt,
     Pending,
     /// a cooperative yield: wakes the task right away and answers Pending (not blocked afterwards)
     PendingWake,
@@ -255,7 +260,7 @@ pub struct UpState {
     pub limit: usize,
     pub ordered: bool,
     /// the two kinds of futures the upstream can hand out (ItemGate / ItemReady slots of the menu)
-    pub modes: [Mode; 2],
+    pub modes: [Mode; 3],
 }
 
 #[derive(Clone, Copy, PartialEq, Eq, Debug)]
@@ -391,7 +396,7 @@ impl World {
             occupant: Vec::new(),
             draining: false,
             dormant: false,
-            spin_limit: 100_000,
+            spin_limit: 2_000,
             spin_hit: false,
             up: UpState {
                 remaining: 0,
@@ -413,7 +418,7 @@ impl World {
                 yields_in_a_row: 0,
                 limit: 0,
                 ordered: false,
-                modes: [Mode::Gate, Mode::Ready],
+                modes: [Mode::Gate, Mode::Ready, Mode::Ready],
             },
             closure_calls: Vec::new(),
             blocks: Vec::new(),
@@ -856,6 +861,7 @@ enum Act {
     WakeSelfPending,
     WakeSelfComplete,
     RelayPending(Option<Waker>),
+    RingPending,
 }
 
 fn child_poll_begin(w: &mut World, id: u32, addr: usize, data: usize) -> bool {
@@ -1039,6 +1045,7 @@ fn script_poll<O: Out>(id: u32, addr: usize, cx: &mut Context<'_>) -> Poll<O> {
                 let draining = w.draining;
                 let dormant = w.dormant;
                 let spin_limit = w.spin_limit;
+                let spin_hit = w.spin_hit;
                 let c = &mut w.children[id as usize];
                 let act = match c.mode {
                     Mode::Ready => Act::Complete,
@@ -1086,6 +1093,17 @@ fn script_poll<O: Out>(id: u32, addr: usize, cx: &mut Context<'_>) -> Poll<O> {
                             Act::RelayPending(None)
                         }
                     }
+                    Mode::Ring => {
+                        if draining || c.released {
+                            Act::Complete
+                        } else if dormant {
+                            Act::Pending
+                        } else if c.polls_in_cpoll > spin_limit || spin_hit {
+                            Act::Bad
+                        } else {
+                            Act::RingPending
+                        }
+                    }
                     Mode::DropPanic => Act::Complete,
                     Mode::PanicOnce => {
                         if c.polls <= 1 && !draining {
@@ -1129,6 +1147,21 @@ fn script_poll<O: Out>(id: u32, addr: usize, cx: &mut Context<'_>) -> Poll<O> {
                     invoke_child_waker(cx.waker());
                     w(|w| complete_child(w, id));
                     Poll::Ready(O::produce(id, fail))
+                }
+                Act::RingPending => {
+                    let t = w(|w| {
+                        let n = w.children.len();
+                        let ok = |c: &Child| c.mode == Mode::Ring && c.accepted && c.drops == 0 && !c.completed && c.waker.is_some();
+                        (1..=n).map(|d| (id as usize + d) % n).find(|&j| ok(&w.children[j])).map(|j| j as u32)
+                    });
+                    w(|w| w.logf(|| format!("    child {} polled -> wakes ring member {:?}, Pending", id, t)));
+                    if let Some(t) = t {
+                        if let Some(wk) = clone_child_waker(t) {
+                            invoke_child_waker(&wk);
+                            in_crate(|| drop(wk));
+                        }
+                    }
+                    Poll::Pending
                 }
                 Act::RelayPending(_) => {
                     w(|w| w.logf(|| format!("    child {} polled -> relays a wake, Pending", id)));
@@ -1424,18 +1457,22 @@ impl<I: UpItem> Stream for Upstream<I> {
                             let k = w.choose(2, 0b10, false);
                             [UpAns::End, UpAns::Pending][k]
                         } else {
-                            let mut menu: Vec<UpAns> = vec![UpAns::ItemGate, UpAns::ItemReady, UpAns::Pending, UpAns::PendingWake];
-                            let mut mask: u64 = if w.up.ready_cost { 0b1110 } else { 0b1100 };
-                            if w.up.is_try {
-                                menu.push(UpAns::Err);
-                                menu.push(UpAns::ItemGateFail);
-                                menu.push(UpAns::ItemReadyFail);
-                                mask |= 0b1110000;
-                            }
+                            let rc = w.up.ready_cost;
+                            let mut menu: Vec<(UpAns, bool)> = vec![(UpAns::ItemGate, false), (UpAns::ItemReady, rc), (UpAns::Pending, true)];
                             // a yielding upstream must eventually produce: at most two yields in a row
-                            if w.up.yields_in_a_row >= 2 {
-                                menu.retain(|a| *a != UpAns::PendingWake);
+                            if w.up.yields_in_a_row < 2 {
+                                menu.push((UpAns::PendingWake, true));
                             }
+                            if w.up.modes[2] != w.up.modes[1] {
+                                menu.push((UpAns::ItemAlt, true));
+                            }
+                            if w.up.is_try {
+                                menu.push((UpAns::Err, true));
+                                menu.push((UpAns::ItemGateFail, true));
+                                menu.push((UpAns::ItemReadyFail, true));
+                            }
+                            let mask: u64 = menu.iter().enumerate().map(|(i, (_, c))| if *c { 1u64 << i } else { 0 }).sum();
+                            let menu: Vec<UpAns> = menu.into_iter().map(|(a, _)| a).collect();
                             let k = w.choose(menu.len(), mask, false);
                             menu[k]
                         }
@@ -1476,10 +1513,11 @@ impl<I: UpItem> Stream for Upstream<I> {
                     let tok = Tok::produce(UP_ERR_ID, seq, true);
                     Poll::Ready(I::error(tok))
                 }
-                UpAns::ItemGate | UpAns::ItemReady | UpAns::ItemGateFail | UpAns::ItemReadyFail => {
+                UpAns::ItemGate | UpAns::ItemReady | UpAns::ItemGateFail | UpAns::ItemReadyFail | UpAns::ItemAlt => {
                     let id = w(|w| {
                         let mode = match ans {
                             UpAns::ItemGate | UpAns::ItemGateFail => w.up.modes[0],
+                            UpAns::ItemAlt => w.up.modes[2],
                             _ => w.up.modes[1],
                         };
                         if w.up.limit >= 1 {
